@@ -917,4 +917,1223 @@ theorem diffM_list_correct_scalar_arrays (L : FloatLaws) (o : Opts) (ho : dispat
 
 #print axioms Jd.diffM_list_correct_scalar_arrays
 
+
+
+/-! ## 5. frame lemmas: hunks below a list index or an object key act on that member only -/
+
+theorem str_lt_of_not_lt_of_ne {a b : String} (h : ¬ a < b) (h2 : a ≠ b) : b < a := by
+  have h3 : b ≤ a := String.not_lt.1 h
+  exact String.not_le.1 (fun h5 => h2 (String.le_antisymm h5 h3))
+
+theorem keysSorted_cons_iff {β} {k : String} {v : β} {r : List (String × β)} :
+    keysSorted ((k, v) :: r) = true ↔ (∀ k' v', (k', v') ∈ r → k < k') ∧ keysSorted r = true := by
+  constructor
+  · intro h
+    exact ⟨keysSorted_head_lt h, keysSorted_tail h⟩
+  · rintro ⟨h1, h2⟩
+    cases r with
+    | nil => rfl
+    | cons kv r' =>
+      obtain ⟨k1, v1⟩ := kv
+      simp only [keysSorted, Bool.and_eq_true, decide_eq_true_eq]
+      exact ⟨h1 k1 v1 List.mem_cons_self, h2⟩
+
+theorem mem_ainsert {β} {k : String} {v : β} {p : String × β} :
+    ∀ {l : List (String × β)}, p ∈ ainsert k v l → p = (k, v) ∨ p ∈ l
+  | [], h => by simp [ainsert] at h; exact .inl h
+  | (k', v') :: r, h => by
+    simp only [ainsert] at h
+    split at h
+    · rcases List.mem_cons.1 h with h | h
+      · exact .inl h
+      · exact .inr h
+    · split at h
+      · rcases List.mem_cons.1 h with h | h
+        · exact .inl h
+        · exact .inr (List.mem_cons_of_mem _ h)
+      · rcases List.mem_cons.1 h with h | h
+        · exact .inr (h ▸ List.mem_cons_self)
+        · rcases mem_ainsert h with h | h
+          · exact .inl h
+          · exact .inr (List.mem_cons_of_mem _ h)
+
+theorem mem_aerase {β} {k : String} {p : String × β} :
+    ∀ {l : List (String × β)}, p ∈ aerase k l → p ∈ l
+  | [], h => by simp [aerase] at h
+  | (k', v') :: r, h => by
+    simp only [aerase] at h
+    split at h
+    · exact List.mem_cons_of_mem _ h
+    · rcases List.mem_cons.1 h with h | h
+      · exact h ▸ List.mem_cons_self
+      · exact List.mem_cons_of_mem _ (mem_aerase h)
+
+theorem keysSorted_ainsert {β} (k : String) (v : β) :
+    ∀ (l : List (String × β)), keysSorted l = true → keysSorted (ainsert k v l) = true
+  | [], _ => rfl
+  | (k', v') :: r, h => by
+    have h' := keysSorted_cons_iff.1 h
+    simp only [ainsert]
+    split
+    · next hlt =>
+      rw [keysSorted_cons_iff]
+      refine ⟨?_, h⟩
+      intro k1 v1 hm
+      rcases List.mem_cons.1 hm with e | hm
+      · cases e; exact hlt
+      · exact String.lt_trans hlt (h'.1 k1 v1 hm)
+    · next hnlt =>
+      split
+      · next e =>
+        subst e
+        rw [keysSorted_cons_iff]
+        exact ⟨h'.1, h'.2⟩
+      · next hne =>
+        rw [keysSorted_cons_iff]
+        refine ⟨?_, keysSorted_ainsert k v r h'.2⟩
+        intro k1 v1 hm
+        rcases mem_ainsert hm with e | hm
+        · cases e; exact str_lt_of_not_lt_of_ne hnlt hne
+        · exact h'.1 k1 v1 hm
+
+theorem keysSorted_aerase {β} (k : String) :
+    ∀ (l : List (String × β)), keysSorted l = true → keysSorted (aerase k l) = true
+  | [], _ => rfl
+  | (k', v') :: r, h => by
+    have h' := keysSorted_cons_iff.1 h
+    simp only [aerase]
+    split
+    · exact h'.2
+    · rw [keysSorted_cons_iff]
+      exact ⟨fun k1 v1 hm => h'.1 k1 v1 (mem_aerase hm), keysSorted_aerase k r h'.2⟩
+
+theorem alookup_ainsert {β} (k k0 : String) (v : β) :
+    ∀ (l : List (String × β)), alookup k0 (ainsert k v l) = if k0 = k then some v else alookup k0 l
+  | [] => by simp [ainsert, alookup]
+  | (k', v') :: r => by
+    simp only [ainsert]
+    split
+    · simp only [alookup]
+    · split
+      · next e => subst e; simp only [alookup]; split <;> rfl
+      · next hne =>
+        simp only [alookup, alookup_ainsert k k0 v r]
+        by_cases e : k0 = k'
+        · subst e; simp
+          intro e2; exact absurd e2.symm hne
+        · simp [e]
+
+theorem alookup_aerase_ne {β} {k k0 : String} (hne : k0 ≠ k) :
+    ∀ (l : List (String × β)), alookup k0 (aerase k l) = alookup k0 l
+  | [] => rfl
+  | (k', v') :: r => by
+    simp only [aerase]
+    split
+    · next e => subst e; simp [alookup, hne]
+    · simp only [alookup, alookup_aerase_ne hne r]
+
+theorem alookup_none_of_lt {β} {k : String} :
+    ∀ {l : List (String × β)}, (∀ k' v', (k', v') ∈ l → k < k') → alookup k l = none
+  | [], _ => rfl
+  | (k', v') :: r, h => by
+    have hlt := h k' v' List.mem_cons_self
+    have hne : k ≠ k' := fun e => String.lt_irrefl k' (e ▸ hlt)
+    simp only [alookup, hne, if_false]
+    exact alookup_none_of_lt (fun k1 v1 hm => h k1 v1 (List.mem_cons_of_mem _ hm))
+
+theorem alookup_aerase_self {β} (k : String) :
+    ∀ (l : List (String × β)), keysSorted l = true → alookup k (aerase k l) = none
+  | [], _ => rfl
+  | (k', v') :: r, h => by
+    have h' := keysSorted_cons_iff.1 h
+    simp only [aerase]
+    split
+    · next e => subst e; exact alookup_none_of_lt h'.1
+    · next hne => simp only [alookup, hne, if_false]; exact alookup_aerase_self k r h'.2
+
+
+/-- a hunk that can be moved below a list index: it addresses something inside the element, or it
+    replaces the element as a whole (one value removed, one added, no context) -/
+def Hunk.frameOK (h : Hunk) : Prop :=
+  h.path ≠ [] ∨ (h.before = [] ∧ h.after = [] ∧ h.remove.length = 1 ∧ h.add.length = 1)
+
+theorem applyStrict_idx_frame (t : Tag) (l : List Json) (k : Nat) (x : Json) (hx : l[k]? = some x)
+    (h : Hunk) (hf : h.frameOK) :
+    applyStrict (.arr t l) (.idx (k : Int) :: h.path) h =
+      (applyStrict x h.path h).map (fun v => .arr .raw (l.set k v)) := by
+  have hk : k < l.length := by
+    rcases Nat.lt_or_ge k l.length with h | h
+    · exact h
+    · rw [List.getElem?_eq_none h] at hx; cases hx
+  rcases hf with hp | ⟨hb, ha, hr, hadd⟩
+  · cases hq : h.path with
+    | nil => exact absurd hq hp
+    | cons q qs =>
+      rw [applyStrict]
+      · simp only [show ¬ ((k : Int) < 0) by omega, if_false, Int.toNat_natCast, hx]
+      · intro e; cases e
+  · cases hq : h.path with
+    | cons q qs =>
+      rw [applyStrict]
+      · simp only [show ¬ ((k : Int) < 0) by omega, if_false, Int.toNat_natCast, hx]
+      · intro e; cases e
+    | nil =>
+      obtain ⟨x', hx'⟩ : ∃ x', h.remove = [x'] := by
+        cases hrm : h.remove with
+        | nil => simp [hrm] at hr
+        | cons x' r' => cases r' with
+          | nil => exact ⟨x', rfl⟩
+          | cons _ _ => simp [hrm] at hr
+      obtain ⟨y', hy'⟩ : ∃ y', h.add = [y'] := by
+        cases hrm : h.add with
+        | nil => simp [hrm] at hadd
+        | cons x' r' => cases r' with
+          | nil => exact ⟨x', rfl⟩
+          | cons _ _ => simp [hrm] at hadd
+      have hdrop : l.drop k = x :: l.drop (k + 1) := by
+        rw [List.drop_eq_getElem_cons hk]
+        congr 1
+        rw [List.getElem?_eq_getElem hk] at hx
+        exact Option.some.inj hx
+      simp only [applyStrict, splice, hb, ha, hx', hy', List.length_cons, List.length_nil,
+        beforeOk, afterOk, single, Json.singleValue]
+      have h1 : ((k : Int) == -1) = false := by
+        simp only [beq_eq_false_iff_ne, ne_eq]; omega
+      have h2 : ((k : Int) < 0 || (k : Int) > (l.length : Int)) = false := by
+        simp only [Bool.or_eq_false_iff, decide_eq_false_iff_not]; omega
+      simp only [h1, h2, Bool.false_eq_true, if_false, Int.toNat_natCast, hdrop, prefixEq,
+        Bool.and_true]
+      have hset : l.set k y' = l.take k ++ [y'] ++ (x :: l.drop (k + 1)).drop (0 + 1) := by
+        rw [List.set_eq_take_append_cons_drop, if_pos hk]
+        simp
+      split <;> simp_all
+
+
+theorem splice_path_irrel (l : List Json) (i : Int) (h : Hunk) (q : Path) :
+    splice l i { h with path := q } = splice l i h := rfl
+
+theorem applyStrict_path_irrel (q : Path) (n : Json) (p : Path) (h : Hunk) :
+    applyStrict n p { h with path := q } = applyStrict n p h := by
+  fun_induction applyStrict n p h <;> simp_all [applyStrict, splice_path_irrel]
+  intro hlt; omega
+
+theorem applyStrictAll_idx_frame (D : Diff) (hD : ∀ h ∈ D, h.frameOK) :
+    ∀ (t : Tag) (l : List Json) (k : Nat) (x : Json), l[k]? = some x →
+      ∀ r, applyStrictAll x D = some r →
+      ∃ t', applyStrictAll (.arr t l) (D.map (Hunk.shift [.idx (k : Int)])) =
+        some (.arr t' (l.set k r)) := by
+  induction D with
+  | nil =>
+    intro t l k x hx r hr
+    simp only [applyStrictAll, Option.some.injEq] at hr
+    subst hr
+    refine ⟨t, ?_⟩
+    have hk : k < l.length := by
+      rcases Nat.lt_or_ge k l.length with h | h
+      · exact h
+      · rw [List.getElem?_eq_none h] at hx; cases hx
+    rw [List.getElem?_eq_getElem hk] at hx
+    cases hx
+    simp [applyStrictAll, List.set_getElem_self]
+  | cons h D ih =>
+    intro t l k x hx r hr
+    simp only [applyStrictAll] at hr
+    cases hv : applyStrict x h.path h with
+    | none => rw [hv] at hr; cases hr
+    | some v =>
+      rw [hv] at hr
+      simp only [Option.bind_some] at hr
+      have hk : k < l.length := by
+        rcases Nat.lt_or_ge k l.length with h | h
+        · exact h
+        · rw [List.getElem?_eq_none h] at hx; cases hx
+      obtain ⟨t', h'⟩ := ih (fun h' hm => hD h' (List.mem_cons_of_mem _ hm)) .raw (l.set k v) k v
+        (List.getElem?_set_self hk) r hr
+      refine ⟨t', ?_⟩
+      simp only [List.map_cons, applyStrictAll, Hunk.shift, List.cons_append, List.nil_append]
+      have := applyStrict_idx_frame t l k x hx h (hD h List.mem_cons_self)
+      have e : applyStrict (.arr t l) (.idx (k : Int) :: h.path)
+          { h with path := .idx (k : Int) :: h.path } =
+          applyStrict (.arr t l) (.idx (k : Int) :: h.path) h :=
+        applyStrict_path_irrel _ _ _ _
+      rw [e, this, hv]
+      simp only [Option.map_some, Option.bind_some]
+      rw [h', List.set_set]
+
+
+/-- the member update performed by a hunk below an object key -/
+def aput (k : String) (v : Json) (cur : List (String × Json)) : List (String × Json) :=
+  if v.isVoid then aerase k cur else ainsert k v cur
+
+theorem keysSorted_aput (k : String) (v : Json) (cur : List (String × Json))
+    (h : keysSorted cur = true) : keysSorted (aput k v cur) = true := by
+  unfold aput; split
+  · exact keysSorted_aerase k cur h
+  · exact keysSorted_ainsert k v cur h
+
+theorem alookup_aput_ne {k k0 : String} (hne : k0 ≠ k) (v : Json) (cur : List (String × Json)) :
+    alookup k0 (aput k v cur) = alookup k0 cur := by
+  unfold aput; split
+  · exact alookup_aerase_ne hne cur
+  · rw [alookup_ainsert, if_neg hne]
+
+theorem alookup_aput_self (k : String) (v : Json) (cur : List (String × Json))
+    (h : keysSorted cur = true) : (alookup k (aput k v cur)).getD .void = v := by
+  unfold aput; split
+  · next hv =>
+    rw [alookup_aerase_self k cur h]
+    cases v <;> simp_all [Json.isVoid]
+  · rw [alookup_ainsert, if_pos rfl]; rfl
+
+theorem applyStrict_key (kvs : List (String × Json)) (k : String) (q : Path) (h : Hunk) :
+    applyStrict (.obj kvs) (.key k :: q) h =
+      (applyStrict ((alookup k kvs).getD .void) q h).map (fun v => .obj (aput k v kvs)) := by
+  rw [applyStrict]
+  cases applyStrict ((alookup k kvs).getD .void) q h with
+  | none => rfl
+  | some v => simp only [Option.map_some, aput]; split <;> rfl
+
+theorem applyStrictAll_key_frame (D : Diff) (k : String) :
+    ∀ (cur : List (String × Json)), keysSorted cur = true →
+      ∀ r, applyStrictAll ((alookup k cur).getD .void) D = some r →
+      ∃ cur', applyStrictAll (.obj cur) (D.map (Hunk.shift [.key k])) = some (.obj cur') ∧
+        keysSorted cur' = true ∧ (∀ k0, k0 ≠ k → alookup k0 cur' = alookup k0 cur) ∧
+        (alookup k cur').getD .void = r := by
+  induction D with
+  | nil =>
+    intro cur hs r hr
+    simp only [applyStrictAll, Option.some.injEq] at hr
+    exact ⟨cur, by simp [applyStrictAll], hs, fun _ _ => rfl, hr⟩
+  | cons h D ih =>
+    intro cur hs r hr
+    simp only [applyStrictAll] at hr
+    cases hv : applyStrict ((alookup k cur).getD .void) h.path h with
+    | none => rw [hv] at hr; cases hr
+    | some v =>
+      rw [hv] at hr
+      simp only [Option.bind_some] at hr
+      have hs1 := keysSorted_aput k v cur hs
+      rw [← alookup_aput_self k v cur hs] at hr
+      obtain ⟨cur', h1, h2, h3, h4⟩ := ih (aput k v cur) hs1 r hr
+      refine ⟨cur', ?_, h2, fun k0 hne => by rw [h3 k0 hne, alookup_aput_ne hne], h4⟩
+      simp only [List.map_cons, applyStrictAll, Hunk.shift, List.cons_append, List.nil_append]
+      rw [applyStrict_path_irrel, applyStrict_key, hv]
+      simp only [Option.map_some, Option.bind_some]
+      exact h1
+
+
+
+
+/-! ## 6. sub-terms and the hypotheses about hash codes -/
+
+mutual
+/-- all sub-terms of a document, the document included -/
+def Json.subterms : Json → List Json
+  | .arr t xs => .arr t xs :: subtermsList xs
+  | .obj kvs => .obj kvs :: subtermsKvs kvs
+  | n => [n]
+def subtermsList : List Json → List Json
+  | [] => []
+  | x :: r => x.subterms ++ subtermsList r
+def subtermsKvs : List (String × Json) → List Json
+  | [] => []
+  | (_, v) :: r => v.subterms ++ subtermsKvs r
+end
+
+theorem self_mem_subterms (x : Json) : x ∈ x.subterms := by
+  cases x <;> simp [Json.subterms]
+
+theorem subterms_of_mem_kvs {k : String} {v : Json} :
+    ∀ {kvs : List (String × Json)}, (k, v) ∈ kvs → ∀ z, z ∈ v.subterms → z ∈ subtermsKvs kvs
+  | [], h, _, _ => by cases h
+  | (k', v') :: r, h, z, hz => by
+    simp only [subtermsKvs, List.mem_append]
+    rcases List.mem_cons.1 h with e | h
+    · cases e; exact .inl hz
+    · exact .inr (subterms_of_mem_kvs h z hz)
+
+/-- `S ⊆ T` for lists, spelled out (core `List.Subset`) -/
+abbrev Sub (l S : List Json) : Prop := ∀ z, z ∈ l → z ∈ S
+
+theorem sub_arr {t : Tag} {xs S : List Json} (h : Sub (Json.arr t xs).subterms S) :
+    Sub (subtermsList xs) S :=
+  fun z hz => h z (by simp [Json.subterms, hz])
+
+theorem sub_obj {kvs : List (String × Json)} {S : List Json} (h : Sub (Json.obj kvs).subterms S) :
+    Sub (subtermsKvs kvs) S :=
+  fun z hz => h z (by simp [Json.subterms, hz])
+
+theorem sub_cons {x : Json} {r S : List Json} (h : Sub (subtermsList (x :: r)) S) :
+    Sub x.subterms S ∧ Sub (subtermsList r) S :=
+  ⟨fun z hz => h z (by simp [subtermsList, hz]), fun z hz => h z (by simp [subtermsList, hz])⟩
+
+theorem sub_kvs_cons {k : String} {v : Json} {r : List (String × Json)} {S : List Json}
+    (h : Sub (subtermsKvs ((k, v) :: r)) S) : Sub v.subterms S ∧ Sub (subtermsKvs r) S :=
+  ⟨fun z hz => h z (by simp [subtermsKvs, hz]), fun z hz => h z (by simp [subtermsKvs, hz])⟩
+
+theorem sub_lookup {k : String} {v : Json} {kvs : List (String × Json)} {S : List Json}
+    (h : Sub (subtermsKvs kvs) S) (hl : alookup k kvs = some v) : Sub v.subterms S :=
+  fun z hz => h z (subterms_of_mem_kvs (mem_of_alookup hl) z hz)
+
+/-- The hypotheses about hash codes, for the sub-terms `S` of the source and `T` of the target.
+    `hash`: a sub-term of the source and a sub-term of the target with the same hash code are
+    structurally equal (no FNV collision). `zero`: no number of the source is equal as a float to
+    a number of the target with a different bit pattern (that is: no `0` against `-0`). -/
+structure NoCollision (o : Opts) (S T : List Json) : Prop where
+  hash : ∀ x ∈ S, ∀ y ∈ T, hashCode o x = hashCode o y → specEq x y = true ∧ specEq y x = true
+  zero : ∀ u v, Json.num u ∈ S → Json.num v ∈ T → numWithin 0 u v = true → u = v
+
+/-! ### the longest-common-subsequence invariant of the cursor walk -/
+
+/-- `c` is a longest common subsequence of `ha` and `hb` -/
+def LOpt (c ha hb : List UInt64) : Prop :=
+  c.Sublist ha ∧ c.Sublist hb ∧ ∀ c' : List UInt64, c'.Sublist ha → c'.Sublist hb → c'.length ≤ c.length
+
+theorem sublist_of_head_ne {c : List UInt64} {h : UInt64} {l : List UInt64}
+    (hs : c.Sublist (h :: l)) (hne : c.head? ≠ some h) : c.Sublist l := by
+  cases c with
+  | nil => exact List.nil_sublist _
+  | cons z c' =>
+    rcases List.sublist_cons_iff.1 hs with h1 | ⟨r, e, _⟩
+    · exact h1
+    · cases e; simp at hne
+
+theorem LOpt.skipA {c ha hb : List UInt64} {h : UInt64} (ho : LOpt c (h :: ha) hb)
+    (hne : c.head? ≠ some h) : LOpt c ha hb :=
+  ⟨sublist_of_head_ne ho.1 hne, ho.2.1, fun c' h1 h2 => ho.2.2 c' (h1.cons _) h2⟩
+
+theorem LOpt.skipB {c ha hb : List UInt64} {h : UInt64} (ho : LOpt c ha (h :: hb))
+    (hne : c.head? ≠ some h) : LOpt c ha hb :=
+  ⟨ho.1, sublist_of_head_ne ho.2.1 hne, fun c' h1 h2 => ho.2.2 c' h1 (h2.cons _)⟩
+
+theorem LOpt.both {z : UInt64} {c ha hb : List UInt64} (ho : LOpt (z :: c) (z :: ha) (z :: hb)) :
+    LOpt c ha hb := by
+  refine ⟨List.cons_sublist_cons.1 ho.1, List.cons_sublist_cons.1 ho.2.1, fun c' h1 h2 => ?_⟩
+  have := ho.2.2 (z :: c') (h1.cons_cons z) (h2.cons_cons z)
+  simp only [List.length_cons] at this
+  omega
+
+theorem LOpt.heads_ne {c ha hb : List UInt64} {h : UInt64} (ho : LOpt c (h :: ha) (h :: hb))
+    (hne : c.head? ≠ some h) : False := by
+  have h1 := sublist_of_head_ne ho.1 hne
+  have h2 := sublist_of_head_ne ho.2.1 hne
+  have := ho.2.2 (h :: c) (h1.cons_cons h) (h2.cons_cons h)
+  simp only [List.length_cons] at this
+  omega
+
+theorem atC_true {o : Opts} {x : Json} {c : List UInt64} (h : atC o x c = true) :
+    c = hashCode o x :: c.tail := by
+  cases c with
+  | nil => simp [atC] at h
+  | cons z c' => simp only [atC, beq_iff_eq] at h; simp [h]
+
+theorem atC_false {o : Opts} {x : Json} {c : List UInt64} (h : atC o x c = false) :
+    c.head? ≠ some (hashCode o x) := by
+  cases c with
+  | nil => simp
+  | cons z c' =>
+    simp only [atC, beq_eq_false_iff_ne, ne_eq] at h
+    simp only [List.head?_cons, ne_eq, Option.some.injEq]
+    exact fun e => h e.symm
+
+theorem LOpt.lcs (ha hb : List UInt64) : LOpt (lcsValues ha hb) ha hb :=
+  ⟨lcsValues_sublist_left ha hb, lcsValues_sublist_right ha hb, lcs_optimal ha hb⟩
+
+
+
+
+/-! ## 7. an empty diff means equal hash codes -/
+
+theorem hashKvs_eq_of (o : Opts) :
+    ∀ (kvs kvs' : List (String × Json)), keysSorted kvs = true → keysSorted kvs' = true →
+      (∀ k v, (k, v) ∈ kvs → ∃ v', alookup k kvs' = some v' ∧ hashCode o v = hashCode o v') →
+      (∀ k v', (k, v') ∈ kvs' → (alookup k kvs).isSome = true) →
+      hashKvs o kvs = hashKvs o kvs'
+  | [], kvs', _, _, _, h2 => by
+    cases kvs' with
+    | nil => rfl
+    | cons kv r => have := h2 kv.1 kv.2 List.mem_cons_self; simp [alookup] at this
+  | (k, v) :: r, kvs', hs, hs', h1, h2 => by
+    obtain ⟨v', hl, hh⟩ := h1 k v List.mem_cons_self
+    cases kvs' with
+    | nil => simp [alookup] at hl
+    | cons kv r' =>
+      obtain ⟨k', w⟩ := kv
+      have hsr := keysSorted_cons_iff.1 hs
+      have hsr' := keysSorted_cons_iff.1 hs'
+      have hk : k = k' := by
+        apply Classical.byContradiction
+        intro hne
+        have hl' : alookup k r' = some v' := by simpa [alookup, hne] using hl
+        have lt1 : k' < k := hsr'.1 k v' (mem_of_alookup hl')
+        have := h2 k' w List.mem_cons_self
+        have hne' : k' ≠ k := fun e => hne e.symm
+        simp only [alookup, hne', if_false] at this
+        cases hlr : alookup k' r with
+        | none => simp [hlr] at this
+        | some w' => exact String.lt_asymm lt1 (hsr.1 k' w' (mem_of_alookup hlr))
+      subst hk
+      have hv : v' = w := by simpa [alookup] using hl.symm
+      subst hv
+      have ih := hashKvs_eq_of o r r' hsr.2 hsr'.2
+        (fun k1 v1 hm => by
+          obtain ⟨v1', hl1, hh1⟩ := h1 k1 v1 (List.mem_cons_of_mem _ hm)
+          have hne : k1 ≠ k := fun e => String.lt_irrefl k (e ▸ hsr.1 k1 v1 hm)
+          exact ⟨v1', by simpa [alookup, hne] using hl1, hh1⟩)
+        (fun k1 v1' hm => by
+          have := h2 k1 v1' (List.mem_cons_of_mem _ hm)
+          have hne : k1 ≠ k := fun e => String.lt_irrefl k (e ▸ hsr'.1 k1 v1' hm)
+          simpa [alookup, hne] using this)
+      simp only [hashKvs, hh, ih]
+
+theorem hashCode_arr_list {o : Opts} (ho : dispatchTag o = .list) {t : Tag} (xs : List Json)
+    (ht : (t == .raw || t == .list) = true) :
+    hashCode o (.arr t xs) = fnv1a (Gen.seedList ++ (hashList o xs).flatMap le8) := by
+  simp [hashCode, effTag_list ho ht]
+
+theorem accHunk_eq_nil {p : Path} {s : Nat} {prev : Json} {R A : List Json} {after : Json}
+    (h : accHunk p s prev R A after = []) : R = [] ∧ A = [] := by
+  unfold accHunk at h
+  split at h
+  · next h' => simpa using h'
+  · cases h
+
+theorem diffCommon_empty_hash (o : Opts) {S T : List Json} (N : NoCollision o S T) (a b : Json)
+    (h1 : ∀ t xs, a ≠ .arr t xs) (h2 : ∀ kvs, a ≠ .obj kvs) (ha : a ∈ S) (hb : b ∈ T) (p : Path)
+    (h : diffCommon false a b p = []) : hashCode o a = hashCode o b := by
+  unfold diffCommon at h
+  split at h
+  · next he =>
+    cases a with
+    | arr t xs => exact absurd rfl (h1 t xs)
+    | obj kvs => exact absurd rfl (h2 kvs)
+    | num u =>
+      cases b <;> simp [equals] at he
+      next v =>
+      have := N.zero u v ha hb (by simpa [precOf] using he)
+      rw [this]
+    | _ => cases b <;> simp_all [equals, Json.isVoid, Json.isNull]
+  · simp at h
+
+
+theorem diff_empty_hash (o : Opts) (ho : dispatchTag o = .list) {S T : List Json}
+    (N : NoCollision o S T) :
+    (∀ a b, a.listDoc = true → b.listDoc = true →
+      Sub a.subterms S → Sub b.subterms T → Good a → Good b →
+      ∀ p, diffNode o false a b p = [] → hashCode o a = hashCode o b) ∧
+    (∀ kvs' kvs, listDocKvs kvs' = true → listDocKvs kvs = true →
+      Sub (subtermsKvs kvs) S → Sub (subtermsKvs kvs') T → GoodK kvs → GoodK kvs' →
+      ∀ p, diffKvs o false p kvs' kvs = [] →
+        ∀ k v, (k, v) ∈ kvs → ∃ v', alookup k kvs' = some v' ∧ hashCode o v = hashCode o v') ∧
+    (∀ k s prev a b c R A, listDocList a = true → listDocList b = true →
+      Sub (subtermsList a) S → Sub (subtermsList b) T → GoodL a → GoodL b →
+      ∀ p, diffRest o p k s prev a b c R A = [] → R = [] ∧ A = [] ∧ hashList o a = hashList o b) := by
+  apply listDiff_induct o ho
+    (mN := fun a b => Sub a.subterms S → Sub b.subterms T → Good a → Good b →
+      ∀ p, diffNode o false a b p = [] → hashCode o a = hashCode o b)
+    (mK := fun kvs' kvs => Sub (subtermsKvs kvs) S → Sub (subtermsKvs kvs') T → GoodK kvs →
+      GoodK kvs' → ∀ p, diffKvs o false p kvs' kvs = [] →
+        ∀ k v, (k, v) ∈ kvs → ∃ v', alookup k kvs' = some v' ∧ hashCode o v = hashCode o v')
+    (mR := fun k s prev a b c R A => Sub (subtermsList a) S → Sub (subtermsList b) T → GoodL a →
+      GoodL b → ∀ p, diffRest o p k s prev a b c R A = [] →
+        R = [] ∧ A = [] ∧ hashList o a = hashList o b)
+  · intro t t' xs ys ht ht' htt _ _ ih hS hT ha hb p h
+    rw [diffNode_arr_arr ho xs ys ht ht' htt] at h
+    have := ih (sub_arr hS) (sub_arr hT) (good_arr.1 ha).2 (good_arr.1 hb).2 p h
+    rw [hashCode_arr_list ho xs ht, hashCode_arr_list ho ys ht', this.2.2]
+  · intro t xs b ht _ _ hb _ _ _ _ p h
+    rw [diffNode_arr_other ho xs b ht hb] at h
+    cases h
+  · intro kvs kvs' _ _ ih hS hT ha hb p h
+    rw [diffNode_obj_obj, List.append_eq_nil_iff, List.map_eq_nil_iff, List.filter_eq_nil_iff] at h
+    have ha' := good_obj.1 ha
+    have hb' := good_obj.1 hb
+    have h1 := ih (sub_obj hS) (sub_obj hT) ha'.2 hb'.2 p h.1
+    have h2 : ∀ k v', (k, v') ∈ kvs' → (alookup k kvs).isSome = true := by
+      intro k v' hm
+      have := h.2 (k, v') hm
+      cases hl : alookup k kvs with
+      | none => simp [hl] at this
+      | some _ => rfl
+    simp only [hashCode, hashKvs_eq_of o kvs kvs' ha'.1 hb'.1 h1 h2]
+  · intro kvs b _ _ hb _ _ _ _ p h
+    rw [diffNode_obj_other o kvs b hb] at h
+    cases h
+  · intro a b h1 h2 _ hS hT _ _ p h
+    rw [diffNode_scalar o a b h1 h2] at h
+    exact diffCommon_empty_hash o N a b h1 h2 (hS a (self_mem_subterms a))
+      (hT b (self_mem_subterms b)) p h
+  · intro kvs' _ _ _ _ p _ k v hm
+    cases hm
+  · intro kvs' k v r hl' _ _ ihN ihK hS hT ha hb p h k0 v0 hm
+    rw [diffKvs_cons, List.append_eq_nil_iff] at h
+    have ha' := goodK_cons.1 ha
+    have hS' := sub_kvs_cons hS
+    rcases List.mem_cons.1 hm with e | hm
+    · cases e
+      cases hlk : alookup k kvs' with
+      | none => rw [hlk] at h; cases h.1
+      | some v' =>
+        rw [hlk] at h
+        exact ⟨v', rfl, ihN v' (alookup_listDoc hlk hl') hS'.1 (sub_lookup hT hlk) ha'.1.1
+          (hb.lookup hlk).1 _ h.1⟩
+    · exact ihK hS'.2 hT ha'.2 hb p h.2 k0 v0 hm
+  · intro k s prev c R A b _ _ _ _ _ p h
+    rw [diffRest_nilA] at h
+    have := accHunk_eq_nil h
+    have hb : b = [] := by simpa using List.append_eq_nil_iff.1 this.2 |>.2
+    have hA : A = [] := (List.append_eq_nil_iff.1 this.2).1
+    subst hb
+    exact ⟨this.1, hA, rfl⟩
+  · intro k s prev c R A a hne _ _ _ _ _ p h
+    rw [diffRest_nilB _ _ _ _ _ _ _ _ _ hne] at h
+    have := accHunk_eq_nil h
+    exact absurd (List.append_eq_nil_iff.1 this.1).2 hne
+  · intro k s prev c R A x a' y b' _ _ hA hB ih hS hT ha hb p h
+    rw [diffRest_cons] at h
+    simp only [hA, hB, Bool.and_self, if_true, List.append_eq_nil_iff] at h
+    have h1 := accHunk_eq_nil h.1
+    have h2 := ih (sub_cons hS).2 (sub_cons hT).2 (goodL_cons.1 ha).2 (goodL_cons.1 hb).2 p h.2
+    refine ⟨h1.1, h1.2, ?_⟩
+    simp only [hashList, atC_both_hash hA hB, h2.2.2]
+  · intro k s prev c R A x a' y b' _ _ hA hB ih hS hT ha hb p h
+    rw [diffRest_cons] at h
+    simp only [hA, hB, Bool.and_false, Bool.false_eq_true, if_false, if_true] at h
+    have h2 := ih hS (sub_cons hT).2 ha (goodL_cons.1 hb).2 p h
+    simp at h2
+  · intro k s prev c R A x a' y b' _ _ hA hB ih hS hT ha hb p h
+    rw [diffRest_cons] at h
+    simp only [hA, hB, Bool.false_and, Bool.false_eq_true, if_false, if_true] at h
+    have h2 := ih (sub_cons hS).2 hT (goodL_cons.1 ha).2 hb p h
+    simp at h2
+  · intro k s prev c R A x a' y b' _ _ hA hB hs ihN ihR hS hT ha hb p h
+    rw [diffRest_cons] at h
+    simp only [hA, hB, hs, Bool.false_and, Bool.false_eq_true, if_false, if_true,
+      List.append_eq_nil_iff] at h
+    have h1 := accHunk_eq_nil h.1.1
+    have h2 := ihR (sub_cons hS).2 (sub_cons hT).2 (goodL_cons.1 ha).2 (goodL_cons.1 hb).2 p h.2
+    have h3 := ihN (sub_cons hS).1 (sub_cons hT).1 (goodL_cons.1 ha).1 (goodL_cons.1 hb).1 _ h.1.2
+    refine ⟨h1.1, h1.2, ?_⟩
+    simp only [hashList, h3, h2.2.2]
+  · intro k s prev c R A x a' y b' _ _ hA hB hs ih hS hT ha hb p h
+    rw [diffRest_cons] at h
+    simp only [hA, hB, hs, Bool.false_and, Bool.false_eq_true, if_false] at h
+    have h2 := ih (sub_cons hS).2 (sub_cons hT).2 (goodL_cons.1 ha).2 (goodL_cons.1 hb).2 p h
+    simp at h2
+
+
+
+
+/-! ## 8. every hunk of a sub-diff can be moved below an index -/
+
+theorem diffNode_at (o : Opts) (ho : dispatchTag o = .list) (a b : Json) (ha : a.listDoc = true)
+    (hb : b.listDoc = true) (e : PathElem) :
+    diffNode o false a b ([] ++ [e]) = (diffNode o false a b []).map (Hunk.shift [e]) := by
+  have := (diff_shift o ho).1 a b ha hb [e] []
+  simpa using this
+
+theorem shift_path_ne_nil (e : PathElem) {D : Diff} {h : Hunk} (hm : h ∈ D.map (Hunk.shift [e])) :
+    h.path ≠ [] := by
+  obtain ⟨h', _, rfl⟩ := List.mem_map.1 hm
+  simp [Hunk.shift]
+
+theorem accHunk_path_ne_nil {s : Nat} {prev : Json} {R A : List Json} {after : Json} {h : Hunk}
+    (hm : h ∈ accHunk [] s prev R A after) : h.path ≠ [] := by
+  unfold accHunk at hm
+  split at hm
+  · cases hm
+  · simp only [List.mem_singleton] at hm; subst hm; simp
+
+theorem diff_frameOK (o : Opts) (ho : dispatchTag o = .list) :
+    (∀ a b, a.listDoc = true → b.listDoc = true → a.isVoid = false → b.isVoid = false →
+      ∀ h ∈ diffNode o false a b [], h.frameOK) ∧
+    (∀ kvs' kvs, listDocKvs kvs' = true → listDocKvs kvs = true →
+      ∀ h ∈ diffKvs o false [] kvs' kvs, h.path ≠ []) ∧
+    (∀ k s prev a b c R A, listDocList a = true → listDocList b = true →
+      ∀ h ∈ diffRest o [] k s prev a b c R A, h.path ≠ []) := by
+  apply listDiff_induct o ho
+    (mN := fun a b => a.isVoid = false → b.isVoid = false →
+      ∀ h ∈ diffNode o false a b [], h.frameOK)
+    (mK := fun kvs' kvs => ∀ h ∈ diffKvs o false [] kvs' kvs, h.path ≠ [])
+    (mR := fun k s prev a b c R A => ∀ h ∈ diffRest o [] k s prev a b c R A, h.path ≠ [])
+  · intro t t' xs ys ht ht' htt _ _ ih _ _ h hm
+    rw [diffNode_arr_arr ho xs ys ht ht' htt] at hm
+    exact .inl (ih h hm)
+  · intro t xs b ht _ _ hb _ hbv h hm
+    rw [diffNode_arr_other ho xs b ht hb] at hm
+    simp only [List.mem_singleton] at hm
+    subst hm
+    right
+    simp [Json.nodeList, hbv]
+  · intro kvs kvs' _ _ ih _ _ h hm
+    rw [diffNode_obj_obj, List.mem_append] at hm
+    rcases hm with hm | hm
+    · exact .inl (ih h hm)
+    · obtain ⟨kv, _, rfl⟩ := List.mem_map.1 hm
+      left; simp
+  · intro kvs b _ _ hb _ _ h hm
+    rw [diffNode_obj_other o kvs b hb] at hm
+    simp only [List.mem_singleton] at hm
+    subst hm
+    right; simp
+  · intro a b h1 h2 _ hav hbv h hm
+    rw [diffNode_scalar o a b h1 h2] at hm
+    unfold diffCommon at hm
+    split at hm
+    · cases hm
+    · simp only [Bool.false_eq_true, if_false, List.mem_singleton] at hm
+      subst hm
+      right; simp [Json.nodeList, hav, hbv]
+  · intro kvs' h hm
+    rw [diffKvs_nil] at hm; cases hm
+  · intro kvs' k v r hl' hv _ _ ihK h hm
+    rw [diffKvs_cons, List.mem_append] at hm
+    rcases hm with hm | hm
+    · cases hlk : alookup k kvs' with
+      | none =>
+        rw [hlk] at hm
+        simp only [List.mem_singleton] at hm
+        subst hm; simp
+      | some v' =>
+        rw [hlk] at hm
+        simp only [] at hm
+        rw [diffNode_at o ho v v' hv (alookup_listDoc hlk hl')] at hm
+        exact shift_path_ne_nil _ hm
+    · exact ihK h hm
+  · intro k s prev c R A b _ h hm
+    rw [diffRest_nilA] at hm
+    exact accHunk_path_ne_nil hm
+  · intro k s prev c R A a hne _ h hm
+    rw [diffRest_nilB _ _ _ _ _ _ _ _ _ hne] at hm
+    exact accHunk_path_ne_nil hm
+  · intro k s prev c R A x a' y b' _ _ hA hB ih h hm
+    rw [diffRest_cons] at hm
+    simp only [hA, hB, Bool.and_self, if_true, List.mem_append] at hm
+    rcases hm with hm | hm
+    · exact accHunk_path_ne_nil hm
+    · exact ih h hm
+  · intro k s prev c R A x a' y b' _ _ hA hB ih h hm
+    rw [diffRest_cons] at hm
+    simp only [hA, hB, Bool.and_false, Bool.false_eq_true, if_false, if_true] at hm
+    exact ih h hm
+  · intro k s prev c R A x a' y b' _ _ hA hB ih h hm
+    rw [diffRest_cons] at hm
+    simp only [hA, hB, Bool.false_and, Bool.false_eq_true, if_false, if_true] at hm
+    exact ih h hm
+  · intro k s prev c R A x a' y b' hl hl' hA hB hs _ ihR h hm
+    rw [diffRest_cons] at hm
+    simp only [listDocList, Bool.and_eq_true] at hl hl'
+    simp only [hA, hB, hs, Bool.false_and, Bool.false_eq_true, if_false, if_true,
+      List.mem_append] at hm
+    rcases hm with (hm | hm) | hm
+    · exact accHunk_path_ne_nil hm
+    · rw [diffNode_at o ho x y hl.1 hl'.1] at hm
+      exact shift_path_ne_nil _ hm
+    · exact ihR h hm
+  · intro k s prev c R A x a' y b' _ _ hA hB hs ih h hm
+    rw [diffRest_cons] at hm
+    simp only [hA, hB, hs, Bool.false_and, Bool.false_eq_true, if_false] at hm
+    exact ih h hm
+
+
+
+
+/-! ## 9. objects: the member hunks -/
+
+/-- stronger form of the key frame lemma: the member after the hunks is exactly the patched value
+    (absent when void) -/
+theorem applyStrictAll_key_frame' (D : Diff) (k : String) :
+    ∀ (cur : List (String × Json)) (x : Json), keysSorted cur = true →
+      alookup k cur = (if x.isVoid then none else some x) →
+      ∀ r, applyStrictAll x D = some r →
+      ∃ cur', applyStrictAll (.obj cur) (D.map (Hunk.shift [.key k])) = some (.obj cur') ∧
+        keysSorted cur' = true ∧ (∀ k0, k0 ≠ k → alookup k0 cur' = alookup k0 cur) ∧
+        alookup k cur' = (if r.isVoid then none else some r) := by
+  induction D with
+  | nil =>
+    intro cur x hs hx r hr
+    simp only [applyStrictAll, Option.some.injEq] at hr
+    subst hr
+    exact ⟨cur, by simp [applyStrictAll], hs, fun _ _ => rfl, hx⟩
+  | cons h D ih =>
+    intro cur x hs hx r hr
+    simp only [applyStrictAll] at hr
+    have hget : (alookup k cur).getD .void = x := by
+      rw [hx]; split
+      · next hv => cases x <;> simp_all [Json.isVoid]
+      · rfl
+    cases hv : applyStrict x h.path h with
+    | none => rw [hv] at hr; cases hr
+    | some v =>
+      rw [hv] at hr
+      simp only [Option.bind_some] at hr
+      have hs1 := keysSorted_aput k v cur hs
+      have hx1 : alookup k (aput k v cur) = (if v.isVoid then none else some v) := by
+        unfold aput; split
+        · exact alookup_aerase_self k cur hs
+        · rw [alookup_ainsert, if_pos rfl]
+      obtain ⟨cur', h1, h2, h3, h4⟩ := ih (aput k v cur) v hs1 hx1 r hr
+      refine ⟨cur', ?_, h2, fun k0 hne => by rw [h3 k0 hne, alookup_aput_ne hne], h4⟩
+      simp only [List.map_cons, applyStrictAll, Hunk.shift, List.cons_append, List.nil_append]
+      rw [applyStrict_path_irrel, applyStrict_key, hget, hv]
+      simp only [Option.map_some, Option.bind_some]
+      exact h1
+
+theorem single_nodeList (b : Json) : single b.nodeList = b := by
+  cases b <;> simp [single, Json.nodeList, Json.isVoid, Json.singleValue]
+
+/-- a hunk at the root: replace the value -/
+theorem apply_root (a : Json) (rm add : List Json) (h1 : rm.length ≤ 1) (h2 : add.length ≤ 1)
+    (h : specEq a (single rm) = true) :
+    applyStrictAll a [{ path := [], remove := rm, add := add }] = some (single add) := by
+  have e : (rm.length > 1 || add.length > 1) = false := by
+    simp only [Bool.or_eq_false_iff, decide_eq_false_iff_not]; omega
+  simp [applyStrictAll, applyStrict, e, h]
+
+theorem specEq_void_void : specEq .void .void = true := by simp [specEq, equivB]
+
+/-- the hunk adding a member -/
+def addHunk (kv : String × Json) : Hunk :=
+  { merge := false, path := [] ++ [.key kv.1], add := kv.2.nodeList }
+
+/-- the second loop of `jsonObject.diff`: members of the target that the source does not have -/
+theorem apply_adds (P : String → Bool) :
+    ∀ (kvs' : List (String × Json)), keysSorted kvs' = true → GoodK kvs' →
+      ∀ (cur : List (String × Json)), keysSorted cur = true →
+      (∀ k v', (k, v') ∈ kvs' → P k = true → alookup k cur = none) →
+      ∃ cur', applyStrictAll (.obj cur) ((kvs'.filter (fun kv => P kv.1)).map addHunk) =
+          some (.obj cur') ∧ keysSorted cur' = true ∧
+        (∀ k0, (∀ v', (k0, v') ∈ kvs' → P k0 = false) → alookup k0 cur' = alookup k0 cur) ∧
+        (∀ k v', (k, v') ∈ kvs' → P k = true → alookup k cur' = some v')
+  | [], _, _, cur, hs, _ => ⟨cur, by simp [applyStrictAll], hs, fun _ _ => rfl, fun _ _ h => by cases h⟩
+  | (k, v') :: r, hs', hg, cur, hs, hnone => by
+    have hs'r := keysSorted_cons_iff.1 hs'
+    have hg' := goodK_cons.1 hg
+    by_cases hP : P k = true
+    · -- the member is added
+      have hx : alookup k cur = (if Json.void.isVoid then none else some Json.void) := by
+        simpa [Json.isVoid] using hnone k v' List.mem_cons_self hP
+      have hv : applyStrictAll Json.void [{ path := [], add := v'.nodeList }] = some v' := by
+        have := apply_root .void [] v'.nodeList (by simp) (by simp [Json.nodeList]; split <;> simp)
+          (by simpa [single, Json.singleValue] using specEq_void_void)
+        rw [this, single_nodeList]
+      obtain ⟨cur1, h1, h2, h3, h4⟩ := applyStrictAll_key_frame' _ k cur .void hs hx v' hv
+      rw [hg'.1.2] at h4
+      simp only [Bool.false_eq_true, if_false] at h4
+      obtain ⟨cur', g1, g2, g3, g4⟩ := apply_adds P r hs'r.2 hg'.2 cur1 h2 (fun k1 v1 hm hP1 => by
+        have hne : k1 ≠ k := fun e => String.lt_irrefl k (e ▸ hs'r.1 k1 v1 hm)
+        rw [h3 k1 hne]
+        exact hnone k1 v1 (List.mem_cons_of_mem _ hm) hP1)
+      refine ⟨cur', ?_, g2, ?_, ?_⟩
+      · simp only [List.filter_cons, hP, if_true, List.map_cons]
+        have e : addHunk (k, v') :: List.map addHunk (List.filter (fun kv => P kv.1) r) =
+            List.map (Hunk.shift [.key k]) [{ path := [], add := v'.nodeList }] ++
+            List.map addHunk (List.filter (fun kv => P kv.1) r) := by
+          simp [Hunk.shift, addHunk]
+        rw [e, applyStrictAll_append, h1]
+        exact g1
+      · intro k0 hk0
+        have hne : k0 ≠ k := fun e => by
+          have := hk0 v' (e ▸ List.mem_cons_self); simp [e, hP] at this
+        rw [g3 k0 (fun v1 hm => hk0 v1 (List.mem_cons_of_mem _ hm)), h3 k0 hne]
+      · intro k1 v1 hm hP1
+        rcases List.mem_cons.1 hm with e | hm
+        · cases e
+          rw [g3 k (fun v2 hm2 => absurd (hs'r.1 k v2 hm2) (String.lt_irrefl k)), h4]
+        · exact g4 k1 v1 hm hP1
+    · -- the source has the member: no hunk
+      obtain ⟨cur', g1, g2, g3, g4⟩ := apply_adds P r hs'r.2 hg'.2 cur hs (fun k1 v1 hm hP1 =>
+        hnone k1 v1 (List.mem_cons_of_mem _ hm) hP1)
+      refine ⟨cur', ?_, g2, ?_, ?_⟩
+      · simp only [List.filter_cons, hP, Bool.false_eq_true, if_false]
+        exact g1
+      · intro k0 hk0
+        exact g3 k0 (fun v1 hm => hk0 v1 (List.mem_cons_of_mem _ hm))
+      · intro k1 v1 hm hP1
+        rcases List.mem_cons.1 hm with e | hm
+        · cases e; exact absurd hP1 hP
+        · exact g4 k1 v1 hm hP1
+
+
+
+
+/-! ## 10. the main induction -/
+
+theorem sameContainerType_notVoid {o : Opts} {x y : Json} (h : sameContainerType o x y = true) :
+    x.isVoid = false ∧ y.isVoid = false := by
+  cases x <;> cases y <;> simp_all [sameContainerType, Json.dispatch, Json.isVoid]
+
+theorem getElem?_mid (pre : List Json) (x : Json) (post : List Json) :
+    (pre ++ x :: post)[pre.length]? = some x := by
+  simp
+
+theorem set_mid (pre : List Json) (x r : Json) (post : List Json) :
+    (pre ++ x :: post).set pre.length r = pre ++ r :: post := by
+  simp
+
+theorem hashList_cons (o : Opts) (x : Json) (r : List Json) :
+    hashList o (x :: r) = hashCode o x :: hashList o r := by
+  simp [hashList]
+
+theorem diff_correct (L : FloatLaws) (o : Opts) (ho : dispatchTag o = .list) {S T : List Json}
+    (N : NoCollision o S T) :
+    (∀ a b, a.listDoc = true → b.listDoc = true →
+      Sub a.subterms S → Sub b.subterms T → Good a → Good b →
+      ∃ r, applyStrictAll a (diffNode o false a b []) = some r ∧ Rel r b) ∧
+    (∀ kvs' kvs, listDocKvs kvs' = true → listDocKvs kvs = true →
+      Sub (subtermsKvs kvs) S → Sub (subtermsKvs kvs') T → GoodK kvs → GoodK kvs' →
+      keysSorted kvs = true → ∀ cur, keysSorted cur = true →
+      (∀ k v, (k, v) ∈ kvs → alookup k cur = some v) →
+      ∃ cur', applyStrictAll (.obj cur) (diffKvs o false [] kvs' kvs) = some (.obj cur') ∧
+        keysSorted cur' = true ∧
+        (∀ k0, (∀ v, (k0, v) ∉ kvs) → alookup k0 cur' = alookup k0 cur) ∧
+        (∀ k v, (k, v) ∈ kvs → match alookup k kvs' with
+          | none => alookup k cur' = none
+          | some v' => ∃ z, alookup k cur' = some z ∧ Rel z v')) ∧
+    (∀ k s prev a b c R A, listDocList a = true → listDocList b = true →
+      ∀ (t : Tag) (pre : List Json), pre.length = s → k = s + A.length → PrevOK pre prev →
+        GoodL R → GoodL a → GoodL b → Sub (subtermsList a) S → Sub (subtermsList b) T →
+        LOpt c (hashList o a) (hashList o b) →
+        ∃ t' zs, applyStrictAll (.arr t (pre ++ R ++ a)) (diffRest o [] k s prev a b c R A) =
+            some (.arr t' (pre ++ A ++ zs)) ∧ RelL zs b) := by
+  apply listDiff_induct o ho
+    (mN := fun a b => Sub a.subterms S → Sub b.subterms T → Good a → Good b →
+      ∃ r, applyStrictAll a (diffNode o false a b []) = some r ∧ Rel r b)
+    (mK := fun kvs' kvs => Sub (subtermsKvs kvs) S → Sub (subtermsKvs kvs') T → GoodK kvs →
+      GoodK kvs' → keysSorted kvs = true → ∀ cur, keysSorted cur = true →
+      (∀ k v, (k, v) ∈ kvs → alookup k cur = some v) →
+      ∃ cur', applyStrictAll (.obj cur) (diffKvs o false [] kvs' kvs) = some (.obj cur') ∧
+        keysSorted cur' = true ∧
+        (∀ k0, (∀ v, (k0, v) ∉ kvs) → alookup k0 cur' = alookup k0 cur) ∧
+        (∀ k v, (k, v) ∈ kvs → match alookup k kvs' with
+          | none => alookup k cur' = none
+          | some v' => ∃ z, alookup k cur' = some z ∧ Rel z v'))
+    (mR := fun k s prev a b c R A =>
+      ∀ (t : Tag) (pre : List Json), pre.length = s → k = s + A.length → PrevOK pre prev →
+        GoodL R → GoodL a → GoodL b → Sub (subtermsList a) S → Sub (subtermsList b) T →
+        LOpt c (hashList o a) (hashList o b) →
+        ∃ t' zs, applyStrictAll (.arr t (pre ++ R ++ a)) (diffRest o [] k s prev a b c R A) =
+            some (.arr t' (pre ++ A ++ zs)) ∧ RelL zs b)
+  · -- list against list
+    intro t t' xs ys ht ht' htt _ _ ih hS hT ha hb
+    rw [diffNode_arr_arr ho xs ys ht ht' htt]
+    obtain ⟨t'', zs, h, hrel⟩ := ih t [] rfl rfl (by simp [PrevOK, Json.isVoid]) GoodL.nil
+      (good_arr.1 ha).2 (good_arr.1 hb).2 (sub_arr hS) (sub_arr hT) (LOpt.lcs _ _)
+    exact ⟨.arr t'' zs, by simpa using h, Rel.arr hrel t'' t'⟩
+  · -- list against something else: replaced as a whole
+    intro t xs b ht _ _ hb' _ _ ha hb
+    rw [diffNode_arr_other ho xs b ht hb']
+    refine ⟨b, ?_, Rel.refl L hb⟩
+    have := apply_root (.arr t xs) [.arr .list xs] b.nodeList (by simp)
+      (by simp only [Json.nodeList]; split <;> simp)
+      (by simpa [single, Json.singleValue] using (Rel.arr (RelL.refl L (good_arr.1 ha).2) t .list).1)
+    rw [this, single_nodeList]
+  · -- object against object
+    intro kvs kvs' _ _ ih hS hT ha hb
+    have ha' := good_obj.1 ha
+    have hb' := good_obj.1 hb
+    rw [diffNode_obj_obj]
+    obtain ⟨cur1, h1, hs1, hother1, hmem1⟩ := ih (sub_obj hS) (sub_obj hT) ha'.2 hb'.2 ha'.1 kvs ha'.1
+      (fun k v hm => alookup_of_mem ha'.1 hm)
+    obtain ⟨cur2, h2, hs2, hother2, hmem2⟩ := apply_adds (fun k => (alookup k kvs).isNone) kvs'
+      hb'.1 hb'.2 cur1 hs1 (fun k v' _ hP => by
+        have hk : alookup k kvs = none := by simpa using hP
+        rw [hother1 k (fun v hm => by rw [alookup_of_mem ha'.1 hm] at hk; cases hk), hk])
+    refine ⟨.obj cur2, ?_, Rel.obj hs2 hb'.1 ?_⟩
+    · rw [applyStrictAll_append, h1]
+      exact h2
+    · intro k
+      cases hlk' : alookup k kvs' with
+      | some v' =>
+        simp only []
+        have hm' := mem_of_alookup hlk'
+        cases hlk : alookup k kvs with
+        | none =>
+          exact ⟨v', hmem2 k v' hm' (by simp [hlk]), Rel.refl L (hb'.2.of_mem hm').1⟩
+        | some v =>
+          have := hmem1 k v (mem_of_alookup hlk)
+          rw [hlk'] at this
+          obtain ⟨z, hz, hr⟩ := this
+          refine ⟨z, ?_, hr⟩
+          rw [hother2 k (fun _ _ => by simp [hlk]), hz]
+      | none =>
+        simp only []
+        rw [hother2 k (fun v' hm => by rw [alookup_of_mem hb'.1 hm] at hlk'; cases hlk')]
+        cases hlk : alookup k kvs with
+        | none =>
+          rw [hother1 k (fun v hm => by rw [alookup_of_mem ha'.1 hm] at hlk; cases hlk), hlk]
+        | some v =>
+          have := hmem1 k v (mem_of_alookup hlk)
+          rw [hlk'] at this
+          exact this
+  · -- object against something else
+    intro kvs b _ _ hb' _ _ ha hb
+    rw [diffNode_obj_other o kvs b hb']
+    refine ⟨b, ?_, Rel.refl L hb⟩
+    have := apply_root (.obj kvs) [.obj kvs] [b] (by simp) (by simp)
+      (by simpa [single, Json.singleValue] using specEq_refl L ha)
+    simpa [single, Json.singleValue] using this
+  · -- scalars
+    intro a b h1 h2 _ _ _ ha hb
+    rw [diffNode_scalar o a b h1 h2]
+    unfold diffCommon
+    split
+    · next he =>
+      refine ⟨a, by simp [applyStrictAll], ?_⟩
+      have e1 : specEq a b = true := by rw [specEq_eq_equals ha.listDoc hb.listDoc]; exact he
+      exact ⟨e1, by rw [specEq_symm L hb ha]; exact e1⟩
+    · refine ⟨b, ?_, Rel.refl L hb⟩
+      simp only [Bool.false_eq_true, if_false]
+      have := apply_root a a.nodeList b.nodeList
+        (by simp only [Json.nodeList]; split <;> simp)
+        (by simp only [Json.nodeList]; split <;> simp)
+        (by rw [single_nodeList]; exact specEq_refl L ha)
+      rw [this, single_nodeList]
+  · -- no member left
+    intro kvs' _ _ _ _ _ cur hs _
+    exact ⟨cur, by simp [diffKvs_nil, applyStrictAll], hs, fun _ _ => rfl, fun _ _ h => by cases h⟩
+  · -- one member of the source
+    intro kvs' k v r hl' hv _ ihN ihK hS hT ha hb hsk cur hs hcur
+    have ha' := goodK_cons.1 ha
+    have hS' := sub_kvs_cons hS
+    have hsk' := keysSorted_cons_iff.1 hsk
+    have hx : alookup k cur = (if v.isVoid then none else some v) := by
+      rw [hcur k v List.mem_cons_self, ha'.1.2]; rfl
+    have hknr : ∀ w, (k, w) ∉ r := fun w hm => String.lt_irrefl k (hsk'.1 k w hm)
+    -- the hunks for this member are hunks on the member, moved below the key
+    have step : ∀ (D0 : Diff) (r0 : Json), applyStrictAll v D0 = some r0 →
+        ((r0 = .void ∧ alookup k kvs' = none) ∨ ∃ v', alookup k kvs' = some v' ∧ Rel r0 v') →
+        ∃ cur', applyStrictAll (.obj cur) (D0.map (Hunk.shift [.key k]) ++ diffKvs o false [] kvs' r) =
+            some (.obj cur') ∧ keysSorted cur' = true ∧
+          (∀ k0, (∀ v_1, (k0, v_1) ∉ (k, v) :: r) → alookup k0 cur' = alookup k0 cur) ∧
+          (∀ k_1 v_1, (k_1, v_1) ∈ (k, v) :: r → match alookup k_1 kvs' with
+            | none => alookup k_1 cur' = none
+            | some v' => ∃ z, alookup k_1 cur' = some z ∧ Rel z v') := by
+      intro D0 r0 hr0 hres
+      obtain ⟨cur1, g1, g2, g3, g4⟩ := applyStrictAll_key_frame' D0 k cur v hs hx r0 hr0
+      obtain ⟨cur', f1, f2, f3, f4⟩ := ihK hS'.2 hT ha'.2 hb hsk'.2 cur1 g2 (fun k1 v1 hm => by
+        have hne : k1 ≠ k := fun e => String.lt_irrefl k (e ▸ hsk'.1 k1 v1 hm)
+        rw [g3 k1 hne]
+        exact hcur k1 v1 (List.mem_cons_of_mem _ hm))
+      refine ⟨cur', ?_, f2, ?_, ?_⟩
+      · rw [applyStrictAll_append, g1]
+        exact f1
+      · intro k0 hk0
+        have hne : k0 ≠ k := fun e => hk0 v (e ▸ List.mem_cons_self)
+        rw [f3 k0 (fun w hm => hk0 w (List.mem_cons_of_mem _ hm)), g3 k0 hne]
+      · intro k1 v1 hm
+        rcases List.mem_cons.1 hm with e | hm
+        · cases e
+          rw [f3 k hknr, g4]
+          rcases hres with ⟨rfl, hlk⟩ | ⟨v', hlk, hres⟩
+          · rw [hlk]; rfl
+          · rw [hlk]
+            have hnv : r0.isVoid = false := by rw [hres.isVoid_eq]; exact (hb.lookup hlk).2
+            exact ⟨r0, by rw [hnv]; rfl, hres⟩
+        · exact f4 k1 v1 hm
+    rw [diffKvs_cons]
+    cases hlk : alookup k kvs' with
+    | some v' =>
+      obtain ⟨r0, h1, h2⟩ := ihN v' (alookup_listDoc hlk hl') hS'.1 (sub_lookup hT hlk) ha'.1.1
+        (hb.lookup hlk).1
+      simp only []
+      rw [diffNode_at o ho v v' hv (alookup_listDoc hlk hl')]
+      exact step _ r0 h1 (.inr ⟨v', hlk, h2⟩)
+    | none =>
+      simp only []
+      have h1 : applyStrictAll v [{ path := [], remove := v.nodeList }] = some .void := by
+        have := apply_root v v.nodeList [] (by simp only [Json.nodeList]; split <;> simp)
+          (by simp) (by rw [single_nodeList]; exact specEq_refl L ha'.1.1)
+        simpa [single, Json.singleValue] using this
+      have := step _ .void h1 (.inl ⟨rfl, hlk⟩)
+      simpa [Hunk.shift] using this
+  · -- end of a
+    intro k s prev c R A b _ t pre hlen hk hp hR _ hb _ _ _
+    subst hlen
+    rw [diffRest_nilA]
+    obtain ⟨t', h⟩ := apply_accHunk L t pre R (A ++ b) [] prev .void hR hp AfterOK.nil
+    refine ⟨t', b, ?_, RelL.refl L hb⟩
+    simpa [List.append_assoc] using h
+  · -- end of b
+    intro k s prev c R A a hne _ t pre hlen hk hp hR ha _ _ _ _
+    subst hlen
+    rw [diffRest_nilB _ _ _ _ _ _ _ _ _ hne]
+    obtain ⟨t', h⟩ := apply_accHunk L t pre (R ++ a) A [] prev .void (hR.append ha) hp AfterOK.nil
+    refine ⟨t', [], ?_, .nil⟩
+    simpa [List.append_assoc] using h
+  · -- both cursors at the next common element
+    intro k s prev c R A x a' y b' _ _ hA hB ih t pre hlen hk hp hR ha hb hS hT hopt
+    subst hlen
+    rw [goodL_cons] at ha hb
+    rw [diffRest_cons]
+    simp only [hA, hB, Bool.and_self, if_true]
+    have hh := atC_both_hash hA hB
+    have hxy : Rel x y := N.hash x ((sub_cons hS).1 x (self_mem_subterms x)) y
+      ((sub_cons hT).1 y (self_mem_subterms y)) hh
+    have hopt' : LOpt c.tail (hashList o a') (hashList o b') := by
+      rw [hashList_cons, hashList_cons, ← hh, atC_true hA] at hopt
+      exact hopt.both
+    obtain ⟨t1, h1⟩ := apply_accHunk L t pre R A (x :: a') prev x hR hp
+      (AfterOK.cons x a' x (specEq_refl L ha.1))
+    obtain ⟨t', zs, h2, hrel⟩ := ih t1 (pre ++ A ++ [x]) (by simp; omega) rfl
+      (PrevOK.concat _ x y hxy.2) GoodL.nil ha.2 hb.2 (sub_cons hS).2 (sub_cons hT).2 hopt'
+    refine ⟨t', x :: zs, ?_, .cons hxy hrel⟩
+    rw [applyStrictAll_append, h1]
+    simp only [Option.bind_some]
+    simpa [List.append_assoc] using h2
+  · -- a at the common element: add from b
+    intro k s prev c R A x a' y b' _ _ hA hB ih t pre hlen hk hp hR ha hb hS hT hopt
+    rw [goodL_cons] at hb
+    rw [diffRest_cons]
+    simp only [hA, hB, Bool.and_false, Bool.false_eq_true, if_false, if_true]
+    rw [hashList_cons o y] at hopt
+    obtain ⟨t', zs, h2, hrel⟩ := ih t pre hlen (by simp; omega) hp hR ha hb.2 hS (sub_cons hT).2
+      (hopt.skipB (atC_false hB))
+    refine ⟨t', y :: zs, ?_, .cons (Rel.refl L hb.1) hrel⟩
+    simpa [List.append_assoc] using h2
+  · -- b at the common element: remove from a
+    intro k s prev c R A x a' y b' _ _ hA hB ih t pre hlen hk hp hR ha hb hS hT hopt
+    have ha' := goodL_cons.1 ha
+    rw [diffRest_cons]
+    simp only [hA, hB, Bool.false_and, Bool.false_eq_true, if_false, if_true]
+    rw [hashList_cons o x] at hopt
+    obtain ⟨t', zs, h2, hrel⟩ := ih t pre hlen hk hp
+      (hR.append (goodL_cons.2 ⟨ha'.1, GoodL.nil⟩)) ha'.2 hb (sub_cons hS).2 hT
+      (hopt.skipA (atC_false hA))
+    refine ⟨t', zs, ?_, hrel⟩
+    simpa [List.append_assoc] using h2
+  · -- compatible containers: the accumulated hunk, the sub-diff below the index, the rest
+    intro k s prev c R A x a' y b' hl hl' hA hB hs ihN ihR t pre hlen hk hp hR ha hb hS hT hopt
+    subst hlen
+    have ha' := goodL_cons.1 ha
+    have hb' := goodL_cons.1 hb
+    simp only [listDocList, Bool.and_eq_true] at hl hl'
+    have hS' := sub_cons hS
+    have hT' := sub_cons hT
+    rw [hashList_cons o x, hashList_cons o y] at hopt
+    -- the hash codes differ (the common sequence is a longest one), so the sub-diff is not empty
+    have hne : hashCode o x ≠ hashCode o y := by
+      intro e
+      rw [← e] at hopt
+      exact hopt.heads_ne (atC_false hA)
+    have hD0 : diffNode o false x y [] ≠ [] := fun e =>
+      hne ((diff_empty_hash o ho N).1 x y hl.1 hl'.1 hS'.1 hT'.1 ha'.1 hb'.1 [] e)
+    obtain ⟨r, hr, hrel0⟩ := ihN hS'.1 hT'.1 ha'.1 hb'.1
+    have hnv := sameContainerType_notVoid hs
+    have hframe := (diff_frameOK o ho).1 x y hl.1 hl'.1 hnv.1 hnv.2
+    rw [diffRest_cons]
+    simp only [hA, hB, hs, Bool.false_and, Bool.false_eq_true, if_false, if_true]
+    rw [diffNode_at o ho x y hl.1 hl'.1]
+    have hemp : (List.map (Hunk.shift [PathElem.idx (k : Int)]) (diffNode o false x y [])).isEmpty
+        = false := by
+      rw [List.isEmpty_map]
+      cases hd : diffNode o false x y [] with
+      | nil => exact absurd hd hD0
+      | cons _ _ => rfl
+    simp only [hemp, Bool.false_eq_true, if_false]
+    obtain ⟨t1, h1⟩ := apply_accHunk L t pre R A (x :: a') prev x hR hp
+      (AfterOK.cons x a' x (specEq_refl L ha'.1))
+    obtain ⟨t2, h2⟩ := applyStrictAll_idx_frame _ hframe t1 (pre ++ A ++ x :: a') k x
+      (by rw [hk, ← List.length_append]; exact getElem?_mid _ _ _) r hr
+    have hset : (pre ++ A ++ x :: a').set k r = pre ++ A ++ r :: a' := by
+      rw [hk, ← List.length_append]; exact set_mid _ _ _ _
+    rw [hset] at h2
+    obtain ⟨t', zs, h3, hrel⟩ := ihR t2 (pre ++ A ++ [r]) (by simp; omega) rfl
+      (PrevOK.concat _ r y hrel0.2) GoodL.nil ha'.2 hb'.2 hS'.2 hT'.2
+      ((hopt.skipA (atC_false hA)).skipB (atC_false hB))
+    refine ⟨t', r :: zs, ?_, .cons hrel0 hrel⟩
+    rw [applyStrictAll_append, applyStrictAll_append, h1]
+    simp only [Option.bind_some]
+    rw [h2]
+    simp only [Option.bind_some]
+    simpa [List.append_assoc] using h3
+  · -- different elements
+    intro k s prev c R A x a' y b' _ _ hA hB hs ih t pre hlen hk hp hR ha hb hS hT hopt
+    have ha' := goodL_cons.1 ha
+    have hb' := goodL_cons.1 hb
+    rw [diffRest_cons]
+    simp only [hA, hB, hs, Bool.false_and, Bool.false_eq_true, if_false]
+    rw [hashList_cons o x, hashList_cons o y] at hopt
+    obtain ⟨t', zs, h2, hrel⟩ := ih t pre hlen (by simp; omega) hp
+      (hR.append (goodL_cons.2 ⟨ha'.1, GoodL.nil⟩)) ha'.2 hb'.2 (sub_cons hS).2 (sub_cons hT).2
+      ((hopt.skipA (atC_false hA)).skipB (atC_false hB))
+    refine ⟨t', y :: zs, ?_, .cons (Rel.refl L hb'.1) hrel⟩
+    simpa [List.append_assoc] using h2
+
+
+
+
+/-! ## 11. the theorem -/
+
+mutual
+theorem good_subterms : ∀ (a : Json), Good a → ∀ x, x ∈ a.subterms → Good x
+  | .arr t xs, h, x, hx => by
+    simp only [Json.subterms, List.mem_cons] at hx
+    rcases hx with rfl | hx
+    · exact h
+    · exact goodL_subterms xs (good_arr.1 h).2 x hx
+  | .obj kvs, h, x, hx => by
+    simp only [Json.subterms, List.mem_cons] at hx
+    rcases hx with rfl | hx
+    · exact h
+    · exact goodK_subterms kvs (good_obj.1 h).2 x hx
+  | .void, h, x, hx => by simp only [Json.subterms, List.mem_singleton] at hx; exact hx ▸ h
+  | .null, h, x, hx => by simp only [Json.subterms, List.mem_singleton] at hx; exact hx ▸ h
+  | .bool _, h, x, hx => by simp only [Json.subterms, List.mem_singleton] at hx; exact hx ▸ h
+  | .num _, h, x, hx => by simp only [Json.subterms, List.mem_singleton] at hx; exact hx ▸ h
+  | .str _, h, x, hx => by simp only [Json.subterms, List.mem_singleton] at hx; exact hx ▸ h
+theorem goodL_subterms : ∀ (xs : List Json), GoodL xs → ∀ x, x ∈ subtermsList xs → Good x
+  | [], _, x, hx => by simp [subtermsList] at hx
+  | y :: r, h, x, hx => by
+    simp only [subtermsList, List.mem_append] at hx
+    rcases hx with hx | hx
+    · exact good_subterms y (goodL_cons.1 h).1 x hx
+    · exact goodL_subterms r (goodL_cons.1 h).2 x hx
+theorem goodK_subterms : ∀ (kvs : List (String × Json)), GoodK kvs → ∀ x, x ∈ subtermsKvs kvs → Good x
+  | [], _, x, hx => by simp [subtermsKvs] at hx
+  | (k, v) :: r, h, x, hx => by
+    simp only [subtermsKvs, List.mem_append] at hx
+    rcases hx with hx | hx
+    · exact good_subterms v (goodK_cons.1 h).1.1 x hx
+    · exact goodK_subterms r (goodK_cons.1 h).2 x hx
+end
+
+/-- **No hash collision** between the source and the target: a sub-term of `a` and a sub-term of
+    `b` with the same hash code are structurally equal. (List elements are matched by hash code.) -/
+def HashOK (o : Opts) (a b : Json) : Prop :=
+  ∀ x, x ∈ a.subterms → ∀ y, y ∈ b.subterms → hashCode o x = hashCode o y → specEq x y = true
+
+/-- **No signed-zero pair**: a number of `a` and a number of `b` that are equal as floats have the
+    same bit pattern. (Scalars are compared with `Equals`, list elements by hash code of the bits:
+    `0` against `-0` inside an object gives an empty sub-diff for elements with different hash
+    codes, and the after-context of the enclosing list hunk is then wrong; see the report.) -/
+def ZeroOK (a b : Json) : Prop :=
+  ∀ u v, Json.num u ∈ a.subterms → Json.num v ∈ b.subterms → numWithin 0 u v = true → u = v
+
+/-- **C01, list mode, strict strategy.** For documents of the domain (list documents, sorted
+    unique keys, finite numbers, no void member), the hunks of `a.Diff(b)` apply in sequence to `a`
+    under the reference semantics of hunks, contexts included, and the result is structurally
+    equal to `b`; without a precision option that is the advertised equivalence under `o`. -/
+theorem diffM_list_correct (L : FloatLaws) (o : Opts) (ho : dispatchTag o = .list)
+    (hm : isMerge o = false) (a b : Json)
+    (ha1 : a.listDoc = true) (ha2 : a.wf = true) (ha3 : a.finiteNums = true) (ha4 : a.memOK = true)
+    (hb1 : b.listDoc = true) (hb2 : b.wf = true) (hb3 : b.finiteNums = true) (hb4 : b.memOK = true)
+    (H : HashOK o a b) (Z : ZeroOK a b) :
+    ∃ r, applyStrictAll a (diffM o a b) = some r ∧ specEq r b = true ∧ specEq b r = true ∧
+      (precOf o = 0 → equivB o r b = true) := by
+  have ha : Good a := ⟨ha1, ha2, ha3, ha4⟩
+  have hb : Good b := ⟨hb1, hb2, hb3, hb4⟩
+  have N : NoCollision o a.subterms b.subterms :=
+    ⟨fun x hx y hy h => by
+      have e := H x hx y hy h
+      exact ⟨e, by rw [specEq_symm L (good_subterms b hb y hy) (good_subterms a ha x hx)]; exact e⟩,
+     Z⟩
+  obtain ⟨r, h, hr⟩ := (diff_correct L o ho N).1 a b ha1 hb1 (fun _ h => h) (fun _ h => h) ha hb
+  refine ⟨r, ?_, hr.1, hr.2, fun hp => equivB_of_specEq ho hp hr.1⟩
+  unfold diffM
+  rw [hm]
+  exact h
+
+#print axioms diffM_list_correct
+
 end Jd
